@@ -949,7 +949,6 @@ func (v V) Latin1Keys() (V, bool) {
 	return v, true
 }
 
-
 // lookupsConsistent: on every list reachable from root, Contains and IndexOf agree with a scan of what the
 // list holds (== on the values Get returns), for the given probes and for the list's own first and last
 // element. A lookup structure kept next to the elements and shared or not updated would show here.
@@ -994,7 +993,6 @@ func rawEq(a, b any) (eq bool, ok bool) {
 	}()
 	return a == b, true
 }
-
 
 // Latin1All applies latin1 to every object key and every string value (see Latin1Keys).
 func (v V) Latin1All() (V, bool) {
